@@ -12,6 +12,8 @@ Sizes(tm) == [s \in 1..Len(tm.scheds) |-> NOut(tm, s)]
 NV(tm) == TNumVar(tm)
 \* data: dyadic frequencies k/8 (so that exact sums keep small denominators); the last dataset has a zero entry
 NSamp == 4
+\* sample sizes differ between schedules (perfect squares): 4, 16, 4, 16, ...
+NSampOf(sch) == IF sch % 2 = 1 THEN 4 ELSE 16
 Pattern8(n, d) == CASE n = 2 -> (CASE d % 3 = 1 -> <<3, 5>> [] d % 3 = 2 -> <<1, 7>> [] OTHER -> <<6, 2>>)
                     [] n = 3 -> (CASE d % 3 = 1 -> <<1, 2, 5>> [] d % 3 = 2 -> <<3, 3, 2>> [] OTHER -> <<4, 1, 3>>)
                     [] n = 4 -> (CASE d % 3 = 1 -> <<1, 1, 2, 4>> [] d % 3 = 2 -> <<2, 3, 2, 1>> [] OTHER -> <<1, 4, 1, 2>>)
@@ -53,11 +55,11 @@ Quantities(tm, m, d, mode, k) ==
         v == Point(tm, k)
         W == CASE mode = "identity" -> IdentityW(sizes)
                [] mode = "custom" -> CustomW(tm)
-               [] OTHER -> [s \in 1..Len(sizes) |-> InvCovWeight(Block(q, sizes, s), NSamp, mode = "inverse_unbiased_covariance")]
+               [] OTHER -> [s \in 1..Len(sizes) |-> InvCovWeight(Block(q, sizes, s), NSampOf(s), mode = "inverse_unbiased_covariance")]
         w == IF mode = "custom" THEN Customw(tm) ELSE [s \in 1..Len(sizes) |-> ROne]
         pred == Predict(m.A, m.b, v)
         reok == ~cov /\ \A r \in 1..Len(m.A) : RLt(R(1, 1000), pred[r])
-    IN [d |-> d, mode |-> mode, k |-> k, q |-> q, v |-> v, W |-> W, w |-> w, n |-> NSamp,
+    IN [d |-> d, mode |-> mode, k |-> k, q |-> q, v |-> v, W |-> W, w |-> w, n |-> [s \in 1..Len(sizes) |-> NSampOf(s)],
         p |-> Predict(m.A, m.b, v),
         seValue |-> SEValue(m.A, m.b, sizes, q, W, v),
         seGrad |-> SEGradient(m.A, m.b, sizes, q, W, v),
@@ -97,8 +99,8 @@ ModeTakesEffect == (Have /\ lq.mode # "identity") => lq.W # IdentityW(Sizes(tomo
 InvCovIsInverse == (Have /\ lq.mode \in {"inverse_sample_covariance", "inverse_unbiased_covariance"}) =>
     \A s \in 1..Len(lq.W) :
         LET qs == Block(lq.q, Sizes(tomo), s) m == Len(qs)
-            blk == CovBlock(qs, IF lq.mode = "inverse_unbiased_covariance" THEN NSamp - 1 ELSE NSamp)
-            ext == [i \in 1..(m - 1) |-> [j \in 1..(m - 1) |-> IF i = j THEN RAdd(blk[i][j], R(1, 8)) ELSE blk[i][j]]]
+            blk == CovBlock(qs, IF lq.mode = "inverse_unbiased_covariance" THEN NSampOf(s) - 1 ELSE NSampOf(s))
+            ext == [i \in 1..(m - 1) |-> [j \in 1..(m - 1) |-> IF i = j THEN RAdd(blk[i][j], R(1, Pow32(NSampOf(s)))) ELSE blk[i][j]]]
             lead == [i \in 1..(m - 1) |-> SubSeq(lq.W[s][i], 1, m - 1)]
         IN MatMul(ext, lead) = MatId(m - 1)
 \* relative entropy: at q = p (exact data) the gradient vanishes on the constraint-preserving directions: checked by the harness
